@@ -65,8 +65,6 @@ def run(ctx):
                 bad = '%s must carry type and data byte-for-byte' % want
         elif want in ('Unknown', 'Grease'):
             bad = 'type %d (%s) with well-framed data must be accepted' % (t, want)
-        elif t in EMPTY and len(pr) > 0 and not ra.startswith('error'):
-            bad = 'extension defined as empty must be rejected when it carries data'
         if t in EMPTY and t in known(op) and len(pr) > 0 and ra.startswith('ok '):
             bad = 'extension defined as empty accepted with %d bytes of data' % len(pr)
         if bad:
@@ -104,7 +102,7 @@ def run(ctx):
     common.run_exact(ctx, exact)
     common.run_differential(ctx, mutants, common.proj_value)
     # 4. a length field exceeding the enclosing block never yields a value; the list parser stops before it
-    ov = []
+    ov, prefixes = [], {}
     for _ in range(3000 if ctx.thorough else 400):
         w = core.Writer()
         d = rng.choice(('exts', 'exts_client', 'exts_server'))
@@ -113,11 +111,20 @@ def run(ctx):
         t = rng.randrange(65536)
         data = rng.randbytes(rng.choice((0, 3, 10)))
         bad = t.to_bytes(2, 'big') + (len(data) + rng.choice((1, 2, 500))).to_bytes(2, 'big') + data
-        ov.append(enc.Case('list_stops_at_overrun', (d,), good + bad, [], None, expect='ok %d %s' % (len(bad), core.lst(vals))))
+        c = enc.Case('list_with_overrun', (d,), good + bad, [], None)
+        prefixes[c.line] = [core.lst(vals[:k]) for k in range(len(vals) + 1)]
+        ov.append(c)
         ov.append(enc.Case('overrun', (d.replace('exts', 'ext'),), bad, [], None))
-    common.run_exact(ctx, [c for c in ov if c.expect])
-    common.run_differential(ctx, [c for c in ov if not c.expect], common.proj_value,
-                            classify=lambda c, r: 'declared length exceeds the block: must not yield a value' if r.startswith('ok ') else None)
+
+    def overrun_class(c, r):
+        if c.fam == 'overrun':
+            return 'declared length exceeds the block: must not yield a value' if r.startswith('ok ') else None
+        if r.startswith('ok '):
+            v = r.split(' ', 2)[2]
+            if v not in prefixes[c.line]:
+                return 'the list parser returned something that is not a prefix of the well-formed extensions before the overrunning one'
+        return None
+    common.run_differential(ctx, ov, common.proj_value, classify=overrun_class)
     common.lean_failure_violation(ctx, ok)
     return ctx.finish(LEVEL,
         rule='exhaustive over types: 65536 extension types x 3 dispatchers (x probe contents) judged by the type->variant specification (known types per dispatcher, 16 RFC 8701 values, Unknown otherwise, byte-for-byte data), tag-specific parsers over types (own type only), every variant with well-formed contents from the independent encoder through all dispatchers / list parsers / ext_type_of / tag and content parsers (exact), every length field corrupted (differential), overrun families; distinct = (dispatcher, specified variant, probe size, outcome) resp. (family, outcome shape)',
